@@ -1,5 +1,10 @@
 package fasthttp
 
+import (
+	"bufio"
+	"bytes"
+)
+
 // C29 — header API behaves as a case-insensitive ordered multimap.
 //
 // Model: a slice of (canonical name, value) in insertion order. Add appends;
@@ -126,4 +131,186 @@ func vhC29RequestOps() {
 		}
 	}
 	c29Check(m, h.PeekAll, h.Peek)
+}
+
+// ---- specially handled names, CopyTo and write → read back ---------------
+
+type c29Spec struct {
+	name    string // spelling used in the call
+	canon   int    // index into the canonical-name table of the harness
+	special bool
+}
+
+// c29State: ordinary names as an ordered multimap, special names single-valued.
+type c29State struct {
+	multi   []c29KV
+	single  map[int][]byte
+	present map[int]bool
+}
+
+func (st *c29State) apply(op int, k c29Spec, v []byte) {
+	if k.special {
+		switch op {
+		case 0, 1:
+			st.single[k.canon] = v
+			st.present[k.canon] = true
+		default:
+			delete(st.single, k.canon)
+			st.present[k.canon] = false
+		}
+		return
+	}
+	st.multi = c29Apply(st.multi, op, k.canon, v)
+}
+
+func (st *c29State) check(tag string, canonNames []string, special []bool, peekAll func(string) [][]byte, peek func(string) []byte) {
+	ok := true
+	for ck, name := range canonNames {
+		var want [][]byte
+		if special[ck] {
+			if st.present[ck] {
+				want = [][]byte{st.single[ck]}
+			}
+		} else {
+			for _, e := range st.multi {
+				if e.k == ck {
+					want = append(want, e.v)
+				}
+			}
+		}
+		got := peekAll(name)
+		// an absent special name may be reported as one empty value or none
+		if special[ck] && len(want) == 0 {
+			for _, g := range got {
+				if len(g) != 0 {
+					ok = false
+				}
+			}
+			if len(peek(name)) != 0 {
+				ok = false
+			}
+			continue
+		}
+		if len(got) != len(want) {
+			ok = false
+			continue
+		}
+		for i := range want {
+			if string(got[i]) != string(want[i]) {
+				ok = false
+			}
+		}
+		if len(want) > 0 && string(peek(name)) != string(want[0]) {
+			ok = false
+		}
+		if len(want) == 0 && len(peek(name)) != 0 {
+			ok = false
+		}
+	}
+	vAssert(tag, ok)
+}
+
+func c29SpecVal(special bool, name string) []byte {
+	if special && name == "Connection" && vBool("close") {
+		return []byte("close")
+	}
+	v := vBytes("v", 1)
+	// visible token byte: survives sanitising and a write → read round trip
+	vAssume(v[0] > ' ' && v[0] < 0x7f && v[0] != ',' && v[0] != ';')
+	return v
+}
+
+var c29RespKeys = [...]c29Spec{
+	{"Content-Type", 0, true}, {"content-type", 0, true}, {"Server", 1, true}, {"Connection", 2, true},
+	{"Content-Encoding", 3, true}, {"X-A", 4, false}, {"x-a", 4, false}, {"X-B", 5, false},
+}
+var c29RespCanon = []string{"Content-Type", "Server", "Connection", "Content-Encoding", "X-A", "X-B"}
+var c29RespSpecial = []bool{true, true, true, true, false, false}
+
+func vhC29SpecialResponse() {
+	K := vParam("ops", 3)
+	var h ResponseHeader
+	h.noDefaultContentType = true
+	h.noDefaultDate = true
+	st := &c29State{single: map[int][]byte{}, present: map[int]bool{}}
+	for s := 0; s < K; s++ {
+		op := vChoose("op", 3)
+		k := c29RespKeys[vChoose("key", len(c29RespKeys))]
+		var v []byte
+		if op != 2 {
+			v = c29SpecVal(k.special, k.name)
+		}
+		switch op {
+		case 0:
+			h.Add(k.name, string(v))
+		case 1:
+			h.Set(k.name, string(v))
+		case 2:
+			h.Del(k.name)
+		}
+		st.apply(op, k, v)
+	}
+	st.check("observers-agree-with-the-model", c29RespCanon, c29RespSpecial, h.PeekAll, h.Peek)
+	var h2 ResponseHeader
+	h2.noDefaultContentType = true
+	h2.noDefaultDate = true
+	h.CopyTo(&h2)
+	st.check("copy-agrees-with-the-model", c29RespCanon, c29RespSpecial, h2.PeekAll, h2.Peek)
+	// write, then read back: same fields (an explicit length keeps the reader
+	// from inferring "read until close", which is framing, not a field)
+	h.SetContentLength(0)
+	wire := append([]byte(nil), h.Header()...)
+	vNote(string(wire))
+	var h3 ResponseHeader
+	h3.noDefaultContentType = true
+	err := h3.Read(bufio.NewReader(bytes.NewReader(wire)))
+	vAssert("serialised-header-reads-back", err == nil)
+	if err == nil {
+		st.check("read-back-agrees-with-the-model", c29RespCanon, c29RespSpecial, h3.PeekAll, h3.Peek)
+	}
+}
+
+var c29ReqKeys = [...]c29Spec{
+	{"Host", 0, true}, {"host", 0, true}, {"User-Agent", 1, true}, {"Connection", 2, true},
+	{"Content-Type", 3, true}, {"X-A", 4, false}, {"x-a", 4, false}, {"X-B", 5, false},
+}
+var c29ReqCanon = []string{"Host", "User-Agent", "Connection", "Content-Type", "X-A", "X-B"}
+var c29ReqSpecial = []bool{true, true, true, true, false, false}
+
+func vhC29SpecialRequest() {
+	K := vParam("ops", 3)
+	var h RequestHeader
+	st := &c29State{single: map[int][]byte{}, present: map[int]bool{}}
+	for s := 0; s < K; s++ {
+		op := vChoose("op", 3)
+		k := c29ReqKeys[vChoose("key", len(c29ReqKeys))]
+		var v []byte
+		if op != 2 {
+			v = c29SpecVal(k.special, k.name)
+		}
+		switch op {
+		case 0:
+			h.Add(k.name, string(v))
+		case 1:
+			h.Set(k.name, string(v))
+		case 2:
+			h.Del(k.name)
+		}
+		st.apply(op, k, v)
+	}
+	st.check("observers-agree-with-the-model", c29ReqCanon, c29ReqSpecial, h.PeekAll, h.Peek)
+	var h2 RequestHeader
+	h.CopyTo(&h2)
+	st.check("copy-agrees-with-the-model", c29ReqCanon, c29ReqSpecial, h2.PeekAll, h2.Peek)
+	if st.present[0] { // a request without Host does not read back
+		h.SetRequestURI("/")
+		wire := append([]byte(nil), h.Header()...)
+		vNote(string(wire))
+		var h3 RequestHeader
+		err := h3.Read(bufio.NewReader(bytes.NewReader(wire)))
+		vAssert("serialised-header-reads-back", err == nil)
+		if err == nil {
+			st.check("read-back-agrees-with-the-model", c29ReqCanon, c29ReqSpecial, h3.PeekAll, h3.Peek)
+		}
+	}
 }
